@@ -415,6 +415,10 @@ def plain_hs_prefix_len(records):
     return n
 
 
+HRR_RANDOM = bytes.fromhex("cf21ad74e59a6111be1d8c021e65b891"
+                           "c2a211167abb8c5e079e09e2c8a8339c")
+
+
 def reframe_case(item):
     idx, tier, seed, direction, mode, param = item
     sc = scenarios(tier)[idx]
@@ -439,6 +443,20 @@ def reframe_case(item):
                 pass
             st["n"] += 1
             hdr, body = rec[:3], rec[5:]
+            if mode == "coalesce":
+                # merge the plaintext handshake records of one flight into
+                # a single record (what most other stacks send)
+                acc = (st["held"][5:] if st["held"] is not None else b"") + \
+                    body
+                last = body[-4:] == b"\x0e\x00\x00\x00" or body[:1] in (
+                    b"\x01", b"\x00") or (
+                        body[:1] == b"\x02" and (tls13 or HRR_RANDOM in body))
+                merged = hdr + len(acc).to_bytes(2, "big") + acc
+                if last or len(acc) > 12000:
+                    st["held"] = None
+                    return [merged]
+                st["held"] = merged
+                return []
 
             def mk(b):
                 return hdr + len(b).to_bytes(2, "big") + b
@@ -571,6 +589,7 @@ def run(res, tier, seed):
             for k in (1, 3, 4, 5, 37):
                 items.append((i, tier, seed, direction, "split", k))
             items.append((i, tier, seed, direction, "chunks", 7))
+            items.append((i, tier, seed, direction, "coalesce", 0))
             if tier == "thorough":
                 for k in range(6, 120, 3):
                     items.append((i, tier, seed, direction, "split", k))
